@@ -13,6 +13,7 @@ length, with a word or value out of range, or with a digit outside the numeral's
 -/
 import NetaddrVerif.Lemmas.C15LBytes
 import NetaddrVerif.Lemmas.C15LBits
+import NetaddrVerif.Lemmas.C15LB85
 namespace NV.C15
 open NV NV.Codec NV.Py
 
@@ -463,5 +464,118 @@ theorem encoders_reject_two_pow (ws nw : Nat) (sep : List Char) (hw : 1 ≤ nw *
     intToBin (2 ^ (nw * ws)) (nw * ws) = .error .index :=
   ⟨(intToWords_spec _ ws nw).2 (Nat.lt_irrefl _), (intToBits_spec _ ws nw sep).2 (Nat.lt_irrefl _),
    (intToBin_spec _ _ hw).2 (Nat.lt_irrefl _)⟩
+
+/-! ## RFC 1924 base 85 -/
+
+/-- the generated alphabet is the one of RFC 1924 section 4.2 -/
+theorem base85_alphabet :
+    Gen.base85 = "0123456789ABCDEFGHIJKLMNOPQRSTUVWXYZabcdefghijklmnopqrstuvwxyz!#$%&()*+-;<=>?@^_`{|}~".toList := by
+  decide +kernel
+
+private theorem b85Char_mem : ∀ d, d < 85 → b85Char d ∈ Gen.base85 := by decide +kernel
+
+/-- `ipv6_to_base85`: 20 characters of the alphabet whose positional value
+    `Σ digit(cᵢ)·85^i` (least significant character last) is v -/
+theorem base85_spec (v : Nat) (hv : v < 2 ^ 128) :
+    (ipv6ToBase85 v).length = 20 ∧ (∀ c ∈ ipv6ToBase85 v, c ∈ Gen.base85) ∧
+    b85Sum (ipv6ToBase85 v).reverse 0 0 = .ok v := by
+  have hlen : (b85Loop v v).length ≤ 20 :=
+    b85Loop_len v v 20 (Nat.le_refl _) (Nat.lt_trans hv two_pow_128_lt)
+  have hd := b85Loop_lt v v
+  have henc : ipv6ToBase85 v =
+      List.replicate (20 - (b85Loop v v).length) '0' ++ (b85Loop v v).reverse.map b85Char := by
+    simp [ipv6ToBase85, b85Char]
+  refine ⟨?_, ?_, ?_⟩
+  · rw [henc]; simp; omega
+  · intro c hc
+    rw [henc] at hc
+    simp only [List.mem_append, List.mem_replicate, List.mem_map, List.mem_reverse] at hc
+    rcases hc with ⟨_, rfl⟩ | ⟨d, hd', rfl⟩
+    · exact b85Char_mem 0 (by decide)
+    · exact b85Char_mem d (hd d hd')
+  · rw [henc, List.reverse_append, ← List.map_reverse, List.reverse_reverse, List.reverse_replicate,
+      b85Sum_digits _ hd, b85Sum_zeros, b85Loop_val v v (Nat.le_refl _)]
+    simp
+
+example : ipv6ToBase85 0x108000000000000000080800200c417a = "4)+k&C#VzJ4br>0wv%Yp".toList := by rfl
+
+/-- decoder ∘ encoder = id for every IPv6 value -/
+theorem base85_roundtrip (v : Nat) (hv : v < 2 ^ 128) : base85ToIpv6 (ipv6ToBase85 v) = .ok v := by
+  obtain ⟨h1, _, h3⟩ := base85_spec v hv
+  have hle : v ≤ 2 ^ 128 - 1 := by omega
+  simp only [base85ToIpv6, h1, ne_eq, not_true_eq_false, if_false, h3]
+  show (if v ≤ 2 ^ 128 - 1 then pure v else Except.error Err.addrFormat) = _
+  rw [if_pos hle]; rfl
+
+private theorem b85Sum_bad (l : List Char) (h : ∃ c ∈ l, Gen.base85Dict.lookup c.toNat = none) :
+    ∀ i acc, b85Sum l i acc = .error .key := by
+  induction l with
+  | nil => obtain ⟨c, hc, _⟩ := h; simp at hc
+  | cons x t ih =>
+    intro i acc
+    simp only [b85Sum]
+    cases hx : Gen.base85Dict.lookup x.toNat with
+    | none => rfl
+    | some d =>
+      obtain ⟨c, hc, hn⟩ := h
+      simp only [List.mem_cons] at hc
+      rcases hc with rfl | hc
+      · rw [hx] at hn; cases hn
+      · exact ih ⟨c, hc, hn⟩ _ _
+
+/-- `base85_to_ipv6` rejects a wrong length (AddrFormatError), a character outside the alphabet
+    (KeyError) and a numeral ≥ 2^128 (AddrFormatError); whatever it accepts is a 20-character
+    numeral whose positional value is the result -/
+theorem base85_reject (s : List Char) :
+    (s.length ≠ 20 → base85ToIpv6 s = .error .addrFormat) ∧
+    (s.length = 20 → (∃ c ∈ s, Gen.base85Dict.lookup c.toNat = none) → base85ToIpv6 s = .error .key) ∧
+    (∀ n, s.length = 20 → b85Sum s.reverse 0 0 = .ok n → 2 ^ 128 ≤ n → base85ToIpv6 s = .error .addrFormat) ∧
+    (∀ r, base85ToIpv6 s = .ok r → s.length = 20 ∧ b85Sum s.reverse 0 0 = .ok r ∧ r < 2 ^ 128) := by
+  refine ⟨?_, ?_, ?_, ?_⟩
+  · intro h; simp [base85ToIpv6, h]
+  · intro h ⟨c, hc, hn⟩
+    have := b85Sum_bad s.reverse ⟨c, by simpa using hc, hn⟩ 0 0
+    simp only [base85ToIpv6, h, ne_eq, not_true_eq_false, if_false, this]
+    rfl
+  · intro n h hs hn
+    have hle : ¬ n ≤ 2 ^ 128 - 1 := by omega
+    simp only [base85ToIpv6, h, ne_eq, not_true_eq_false, if_false, hs]
+    show (if n ≤ 2 ^ 128 - 1 then pure n else Except.error Err.addrFormat) = _
+    rw [if_neg hle]
+  · intro r h
+    by_cases hl : s.length = 20
+    · simp only [base85ToIpv6, hl, ne_eq, not_true_eq_false, if_false] at h
+      cases hs : b85Sum s.reverse 0 0 with
+      | error e => rw [hs] at h; cases h
+      | ok n =>
+        rw [hs] at h
+        have h' : (if n ≤ 2 ^ 128 - 1 then pure n else Except.error Err.addrFormat) = Except.ok r := h
+        by_cases hn : n ≤ 2 ^ 128 - 1
+        · rw [if_pos hn] at h'
+          have : n = r := by injection h'
+          subst this
+          exact ⟨hl, rfl, by omega⟩
+        · rw [if_neg hn] at h'; cases h'
+    · simp [base85ToIpv6, hl] at h
+
+example : base85ToIpv6 "4)+k&C#VzJ4br>0wv%Yp".toList = .ok 0x108000000000000000080800200c417a := by rfl
+example : base85ToIpv6 (List.replicate 20 '~') = .error .addrFormat := by rfl
+example : base85ToIpv6 (List.replicate 19 '0') = .error .addrFormat := by rfl
+example : base85ToIpv6 (List.replicate 19 '0' ++ [' ']) = .error .key := by rfl
+
+/-! ## reverse DNS -/
+
+/-- `ipv4.int_to_arpa`: the four octets, least significant first, in decimal, then
+    `in-addr.arpa.` -/
+theorem arpa4_spec (v : Nat) (hv : v < 2 ^ 32) :
+    V4.intToArpa v = .ok (['.'].intercalate [Nat.toDigits 10 (v % 256), Nat.toDigits 10 (v / 2 ^ 8 % 256),
+      Nat.toDigits 10 (v / 2 ^ 16 % 256), Nat.toDigits 10 (v / 2 ^ 24), "in-addr".toList, "arpa".toList, []]) := by
+  have h1 : v ≤ 2 ^ 32 - 1 := by omega
+  simp only [V4.intToArpa, V4.intToWords, if_pos h1, and255, Nat.shiftRight_eq_div_pow]
+  rfl
+
+example : V4.intToArpa 0xC0000201 = .ok "1.2.0.192.in-addr.arpa.".toList := by rfl
+set_option maxRecDepth 8000 in
+example : V6.intToArpa 1 = .ok "1.0.0.0.0.0.0.0.0.0.0.0.0.0.0.0.0.0.0.0.0.0.0.0.0.0.0.0.0.0.0.0.ip6.arpa.".toList := by rfl
 
 end NV.C15
